@@ -223,7 +223,14 @@ def gen_case(rng, lib, forward_refs=False):
             roots.append(gen_chain(rng, lib, rng.randint(8, 25), targets, ids, nid=root_ids[i]))
         else:
             roots.append(gen_node(rng, lib, 0, rng.randint(1, 5), targets, ids, nid=root_ids[i]))
-    return {'libnodes': libnodes, 'liborder': order, 'roots': roots}
+    case = {'libnodes': libnodes, 'liborder': order, 'roots': roots}
+    # follow-ups evaluated by the direct oracle: a root's subtree entered with a given matrix, and a second
+    # traversal after one node's transform list was extended and saved
+    if rng.random() < 0.5:
+        case['enter'] = [rng.randrange(nroots), gen_transform(rng)]
+    if rng.random() < 0.5:
+        case['edit_after'] = rng.choice([n['id'] for n in roots + libnodes])
+    return case
 
 
 # ------------------------------------------------------------------ reference traversal (document order)
@@ -259,8 +266,9 @@ def acyclic(case):
     return all(visit_id(n['id']) for n in case['roots'])
 
 
-def paths(case):
-    """[(list of node matrices root..leaf, leaf dict)] in document (pre-order) order"""
+def paths(case, only_root=None, prefix=None):
+    """[(list of node matrices root..leaf, leaf dict)] in document (pre-order) order; with only_root = i just the
+    subtree of the i-th root, entered with the matrices in prefix"""
     table = resolve(case)
     out = []
 
@@ -274,9 +282,25 @@ def paths(case):
             walk(table[n['ref']], mats)
         elif t != 'extra':
             out.append((mats, n))
+    if only_root is not None:
+        walk(case['roots'][only_root], list(prefix or []))
+        return out
     for r in case['roots']:
         walk(r, [])
     return out
+
+
+EDIT_TRANSFORM = ['translate', 1, -2, 3]
+
+
+def edited(case, node_id):
+    """the case after appending EDIT_TRANSFORM to the transforms of the root / library node node_id"""
+    import json
+    c = json.loads(json.dumps(case))
+    for n in c['roots'] + c['libnodes']:
+        if n['id'] == node_id:
+            n['transforms'].append(list(EDIT_TRANSFORM))
+    return c
 
 
 def path_bound(case):
@@ -292,7 +316,7 @@ def path_bound(case):
     return 16 * big, len(ps)
 
 
-def expected(lib, case):
+def expected(lib, case, plist=None):
     """{kind: [structured bound object]} by the plain reading of the property"""
     A = atoms(lib)
     geoms = {g['id']: g for g in lib['geoms']}
@@ -320,7 +344,7 @@ def expected(lib, case):
                       for poly in p['polys']]
             o.append({'kind': p['kind'], 'material': material(binds, p['symbol']), 'verts': bv, 'normals': bn, 'shapes': shapes})
         return o
-    for mats, leaf in paths(case):
+    for mats, leaf in (paths(case) if plist is None else plist):
         M = ident()
         for m in mats:
             M = mmul(M, m)
